@@ -78,3 +78,18 @@ def cmp_outcome(state, name, op_types, const):
         return (isinstance(e, ast.Compare) and len(e.ops) == 1 and isinstance(e.left, ast.Name) and e.left.id == name
                 and isinstance(e.ops[0], op_types) and isinstance(e.comparators[0], ast.Constant) and e.comparators[0].value == const)
     return implied(state.conds, pred)
+
+
+def resolved_conds(p, keep=()):
+    """the branch conditions of path p with their locals replaced by the definitions in force when the test was evaluated
+    (so `flag = isinstance(x, K)` ... `if not flag:` reads like `if not isinstance(x, K):`)"""
+    import ast as _ast
+    from .resolve import resolved, path_defs
+    out = []
+    for e in p.events:
+        if e.kind == 'cond' and isinstance(e.stmt, (_ast.If, _ast.While)) and isinstance(e.value, bool):
+            try:
+                out.append((resolved(e.stmt.test, path_defs(p, e), keep=set(keep)), e.value))
+            except Exception:
+                out.append((e.stmt.test, e.value))
+    return out
